@@ -2,14 +2,15 @@
 # Custom build of the C17 check: instruments the CURRENT working tree of $VERIF_REPO (statement
 # crash points in the ffldb commit/flush/rollback/block-write functions) into a scratch directory
 # and builds the check with `go build -overlay`. Nothing is written into the repository.
-# Inputs (from ./run or setup.sh): VERIF_BIN, VERIF_REPO, VERIF_MODFLAGS, VERIF_ROOT.
+# Inputs (from ./run or setup.sh): VERIF_BIN, VERIF_REPO, VERIF_MODFLAGS (VERIF_ROOT is not needed:
+# the engine module is located relative to this script).
 set -eu
 export GOFLAGS=-mod=mod GOPROXY=off GOSUMDB=off GOTOOLCHAIN=local
-ROOT="${VERIF_ROOT:-/verif}"
+ENGINE="$(cd "$(dirname "$0")/../.." && pwd)" # the engine module this script belongs to
 REPO="${VERIF_REPO:-/repo}"
 SCR="$(mktemp -d /dev/shm/verif-c17-build-XXXXXX)"
 trap 'rm -rf "$SCR"' EXIT
-cd "$ROOT/engine"
+cd "$ENGINE"
 FUNCS="transaction.writePendingAndCommit,transaction.Commit,transaction.close,blockStore.writeBlock,blockStore.writeData,blockStore.handleRollback,blockStore.syncBlocks,dbCache.flush,dbCache.commitTx,dbCache.commitTreaps,dbCache.updateDB,dbCache.needsFlush,dbCache.Close,db.Close"
 go build -o "$SCR/vinst" ./vinst
 "$SCR/vinst" -repo "$REPO" -out "$SCR/ov" -pkg database/ffldb -call verifCP -funcs "$FUNCS"
